@@ -111,7 +111,10 @@ def invalid_values(spec):
     if kind == 'msg':
         for n in midi1.ATTRS[spec[1]]:
             if n == 'data':
-                out += [('data', 5), ('data', [128]), ('data', 'x')]
+                out += [('data', 5), ('data', [128]), ('data', 'x'),
+                        # a whole dump, frame and all, where the payload belongs (and pieces of a frame)
+                        ('data', [0xF0, 1, 2, 0xF7]), ('data', (0xF0, 0xF7)), ('data', b'\xf0\x7e\x01\xf7'), ('data', [0xF0, 1]), ('data', [1, 0xF7]),
+                        ('data', [0xF7]), ('data', [0xF0])]
             else:
                 lo, hi = midi1.DOMAIN[n]
                 out += [(n, hi + 1), (n, lo - 1), (n, 1.0), (n, None)]
